@@ -63,17 +63,17 @@ func regMenu(seed int64) []regOp {
 	})
 	add("Normalize(r0)", func(c *ipa.IPAConfig, s *regState) {
 		if err := s.e[0].Normalize(); err != nil {
-			panic("Normalize of a valid element failed: " + err.Error())
+			panic(core.ImplFault{API: "Normalize", Input: "valid element(s) of the register machine", Got: "error: " + err.Error()})
 		}
 	})
 	add("BatchNormalize([r0,r1])", func(c *ipa.IPAConfig, s *regState) {
 		if err := banderwagon.BatchNormalize([]*banderwagon.Element{&s.e[0], &s.e[1]}); err != nil {
-			panic("BatchNormalize of valid elements failed: " + err.Error())
+			panic(core.ImplFault{API: "BatchNormalize", Input: "valid element(s) of the register machine", Got: "error: " + err.Error()})
 		}
 	})
 	add("BatchNormalize([r0,r1,r0,r1,r0])", func(c *ipa.IPAConfig, s *regState) {
 		if err := banderwagon.BatchNormalize([]*banderwagon.Element{&s.e[0], &s.e[1], &s.e[0], &s.e[1], &s.e[0]}); err != nil {
-			panic("BatchNormalize of valid elements failed: " + err.Error())
+			panic(core.ImplFault{API: "BatchNormalize", Input: "valid element(s) of the register machine", Got: "error: " + err.Error()})
 		}
 	})
 	t2 := bandersnatch.PointAffine{X: fpFromBig(bi(0)), Y: fpFromBig(new(big.Int).Sub(bigP, bi(1)))}
@@ -90,7 +90,7 @@ func regMenu(seed int64) []regOp {
 		b := s.e[0].Bytes()
 		var e banderwagon.Element
 		if err := e.SetBytes(b[:]); err != nil {
-			panic("decode(encode) failed: " + err.Error())
+			panic(core.ImplFault{API: "decode(encode)", Input: "valid element(s) of the register machine", Got: "error: " + err.Error()})
 		}
 		s.e[0] = e
 	})
@@ -98,7 +98,7 @@ func regMenu(seed int64) []regOp {
 		b := s.e[1].BytesUncompressedTrusted()
 		var e banderwagon.Element
 		if err := e.SetBytesUncompressed(b[:], true); err != nil {
-			panic("trusted uncompressed decode failed: " + err.Error())
+			panic(core.ImplFault{API: "trusted uncompressed decode", Input: "valid element(s) of the register machine", Got: "error: " + err.Error()})
 		}
 		s.e[1] = e
 	})
@@ -106,7 +106,7 @@ func regMenu(seed int64) []regOp {
 	add("r0:=MultiScalar([r0,r1],[s,t])", func(c *ipa.IPAConfig, s *regState) {
 		res, err := ipa.MultiScalar([]banderwagon.Element{s.e[0], s.e[1]}, []fr.Element{se, te})
 		if err != nil {
-			panic("MultiScalar failed: " + err.Error())
+			panic(core.ImplFault{API: "MultiScalar", Input: "valid element(s) of the register machine", Got: "error: " + err.Error()})
 		}
 		s.e[0] = res
 		s.p[0] = ref.Add(ref.Mul(s.p[0], s1), ref.Mul(s.p[1], t1))
@@ -115,7 +115,7 @@ func regMenu(seed int64) []regOp {
 		var acc banderwagon.Element
 		out, err := acc.MultiExp([]banderwagon.Element{s.e[0]}, []fr.Element{te}, banderwagon.MultiExpConfig{NbTasks: 65, ScalarsMont: true})
 		if err != nil {
-			panic("MultiExp failed: " + err.Error())
+			panic(core.ImplFault{API: "MultiExp", Input: "valid element(s) of the register machine", Got: "error: " + err.Error()})
 		}
 		s.e[0] = *out
 		s.p[0] = ref.Mul(s.p[0], t1)
@@ -124,7 +124,7 @@ func regMenu(seed int64) []regOp {
 		var acc banderwagon.Element // never initialised by the caller: MultiExp must set it completely
 		out, err := acc.MultiExp([]banderwagon.Element{s.e[0], s.e[1]}, []fr.Element{{}, {}}, banderwagon.MultiExpConfig{NbTasks: 2, ScalarsMont: true})
 		if err != nil {
-			panic("MultiExp failed: " + err.Error())
+			panic(core.ImplFault{API: "MultiExp", Input: "valid element(s) of the register machine", Got: "error: " + err.Error()})
 		}
 		s.e[1] = *out
 		s.p[1] = ref.Identity()
